@@ -14,13 +14,22 @@ MANIFEST = {
             "over Z; re-reading the emitted blank lines yields the same newlines; the positions statements get in the "
             "emitted text are a fixed point), comment re-attachment on the formatter's own list / record / do-block / "
             "statement layouts returns the same commented items (pair-level model of the parser's pending-comment "
-            "bookkeeping); model tied to the code by the FORMAT correspondence run on the source AND on the formatter's "
+            "bookkeeping), and that bookkeeping is linked to the parser model of C09 (coq/PegComments.v over the PEG model): "
+            "its list / record / do-block loops ARE attach / attach_do on the parsed inner pairs at every nesting depth "
+            "(C08_reparse_attach_matches_model), so the fixed-point theorems hold for what parse_program_c builds from the "
+            "Peg tree of a formatted text whenever that tree has the layout's pairs (C08_reparse_*_fixed_point), and the "
+            "second-pass theorems are stated with the re-parse as a Coq term (C08_reparse_second_pass_lib/_cli); "
+            "model tied to the code by the FORMAT correspondence run on the source AND on the formatter's "
             "own output (incl. statement positions as pest reports them), and format(format(p,w),w) == format(p,w) "
-            "searched on the implementation through the library loop and the real blots --format binary",
+            "searched on the implementation through the library loop and the real blots --format binary; REPARSE stream: "
+            "the formatter's outputs re-parsed by the parser model and by the real parser (commented-AST dump with comment "
+            "roles and statement lines), with the content hypothesis of the second-pass theorems checked on every program",
     "note": "trusted: Coq kernel + vm_compute; hand transcription of formatter.rs and of both driver loops (validated "
-            "by the FORMAT correspondence, incl. second pass); the pest parser is not modelled: that the formatter's "
-            "text re-parses to the same AST is property C07's, here it is only tested on the implementation (no "
-            "exclusion: any idempotence failure is a violation); no axioms",
+            "by the FORMAT correspondence, incl. second pass); the parser is modelled (coq/Peg.v + gen/Grammar.v + "
+            "coq/PegComments.v, compared with the real parser by the REPARSE / C09P streams) but that the text of a layout "
+            "lexes into the layout's pairs, and that the formatter's text re-parses to the same AST (property C07's), are "
+            "tested, not proved (no exclusion: any idempotence failure is a violation); gen/Grammar.v and gen/PrecTable.v "
+            "are regenerated before the proof step; no axioms",
     "design_ref": "DESIGN.md section 6 C08; notes/C08.md",
 }
 
